@@ -1,8 +1,10 @@
 //! vf-common: checks that only need `datafusion-common` (C12 C34 C42a C43a C52).
+mod c12;
 mod c52;
 
 fn main() {
     vf_kit::dispatch! {
+        "c12" => c12::C12,
         "c52" => c52::C52,
     }
 }
